@@ -378,6 +378,34 @@ func TestPropExtraKeysDoNotChangeKind(t *testing.T) {
 			extras++
 			recExtra.Class("keys-arrive-through-a-chain-of-merges")
 		}
+		plainMergeLookalike := false
+		for i := 0; i < len(content); i += 2 {
+			// (written by yaml.Marshal directly below, a string key `<<` would come out plain and read back
+			// as a merge - a quirk of the emitter that doc.Render works around; such rows keep to Render)
+			if content[i].Value == "<<" && content[i].Style == 0 {
+				plainMergeLookalike = true
+			}
+		}
+		if !plainMergeLookalike && rapid.IntRange(0, 7).Draw(t, "twinkeys") == 0 {
+			// two extra keys that are different YAML keys and the same text: a number, a boolean or null
+			// written plain, and the string that spells it (quoted). Which of the two values survives is not
+			// this property's business; the kind of the step is.
+			tw := rapid.SampledFrom([]string{"1", "true", "0x10", "1.5", "007", "no"}).Draw(t, "twin")
+			pairs := []*yaml.Node{doc.Plain(tw), doc.StrNode("plain"), doc.Scalar("!!str", tw, yaml.DoubleQuotedStyle), doc.StrNode("quoted")}
+			if rapid.Bool().Draw(t, "quotedfirst") {
+				pairs = []*yaml.Node{pairs[2], pairs[3], pairs[0], pairs[1]}
+			}
+			flat := doc.MapNode(false, append(append([]*yaml.Node{}, content...), pairs...)...)
+			text, merr := yaml.Marshal(doc.DocNode(doc.MapNode(false, doc.StrNode("steps"), doc.SeqNode(false, flat))))
+			if merr != nil {
+				t.Fatalf("harness: %v", merr)
+			}
+			wk, ws := expected(func(k string) bool { return has[k] }, typ, typ != "<absent>")
+			if err := checkOne(string(text), wk, ws); err != nil {
+				t.Fatalf("%v\ndocument:\n%s", err, text)
+			}
+			recExtra.Class("extra-keys-that-differ-only-in-being-quoted")
+		}
 		d, err := doc.Render(root, 2, 20000)
 		if err != nil {
 			e := err.Error()
